@@ -242,9 +242,16 @@ def source_tie(ctx, prop, specs):
     tmpl = open(os.path.join(VERIF, 'harness', 'ties', 'Tie_%s.v' % prop)).read()
     lemmas = re.findall(r'^Lemma\s+(\w+)', tmpl, flags=re.M)
     ctx.obligations.extend(lemmas)
+    allspecs = specs
+    specs = [((sp['file'], sp['cls'] + '.' + sp['method']) if isinstance(sp, dict) else sp) for sp in allspecs]
     try:
-        gen = ''.join(pytranslate.translate(os.path.join(REPO, sp[0]), sp[1], sp[2], consts=(sp[3] if len(sp) > 3 else ()))[1]
-                      for sp in specs)
+        gen = ''
+        for sp in allspecs:
+            if isinstance(sp, dict):      # block mode: a run of statements inside a method
+                kw = dict(sp)
+                gen += pytranslate.translate_block(os.path.join(REPO, kw.pop('file')), kw.pop('cls'), kw.pop('method'), kw.pop('coq'), **kw)
+            else:
+                gen += pytranslate.translate(os.path.join(REPO, sp[0]), sp[1], sp[2], consts=(sp[3] if len(sp) > 3 else ()))[1]
     except pytranslate.TranslateError as e:
         ctx.violation('tie:' + prop, 'source tie broken: harness/pytranslate.py cannot translate the current source of %s: %s'
                       % ([s[1] for s in specs], e), no_input=True)
